@@ -255,11 +255,11 @@ func negativeScenario(pre int) vs.Scenario {
 }
 
 func build(tier string) ([]runner.Instance, time.Duration) {
-	b := 2
+	b := 3
 	budget := 60 * time.Second
 	maxK, maxW := 2, 2
 	if tier == "thorough" {
-		b, budget, maxK, maxW = 3, 12*time.Minute, 2, 3
+		b, budget, maxK, maxW = 5, 12*time.Minute, 2, 3
 	}
 	var out []runner.Instance
 	add := func(group, name string, bound int, sc vs.Scenario) {
